@@ -510,42 +510,63 @@ func checkHeapSendDiscipline(w *World, r *Report, rule string) {
 		return false
 	}
 	nEnd := 0
-	for _, b := range cont.Blocks {
-		for _, in := range b.Instrs {
-			c, ok := in.(*ssa.Call)
-			if !ok || c.Call.StaticCallee() != endFn {
-				continue
+	unit := w.unit(cont)
+	// continuation points: the end call itself and, when it sits in a private helper of the
+	// container loop, the helper's call sites (transitively up to the loop function)
+	var after func(fn *ssa.Function, in ssa.Instruction, depth int)
+	after = func(fn *ssa.Function, in ssa.Instruction, depth int) {
+		b := in.Block()
+		bad := ""
+		started := false
+		w.absExplore(fn, b, nil, nil, 0, func(x ssa.Instruction, st *absState) {
+			if x == in {
+				started = true
+				return
 			}
-			nEnd++
-			// after this call: explore; any call reaching a sender is a violation
-			bad := ""
-			started := false
-			w.absExplore(cont, b, nil, nil, 0, func(x ssa.Instruction, st *absState) {
-				if x == in {
-					started = true
-					return
+			if x.Block() == b && !started {
+				return
+			}
+			if ci, ok := x.(ssa.CallInstruction); ok && (x.Block() != b || instrIndex(x) > instrIndex(in)) {
+				if _, isGo := x.(*ssa.Go); !isGo && reachesSender(ci) {
+					bad = "a heap-manager request (" + w.instrPos(x) + ") is reachable after the end request: send on closed channel"
 				}
-				if x.Block() == b && !started {
-					return
+			}
+		})
+		r.Check(bad == "", rule+"e", "after end request in "+map[bool]string{true: "container loop", false: fnShort(fn)}[fn == cont], w.instrPos(in), "no heap request reachable after end", bad)
+		if fn != cont && depth < 3 {
+			for _, site := range w.callers[fn] {
+				if unit[site.Parent()] {
+					after(site.Parent(), site, depth+1)
 				}
-				if ci, ok := x.(ssa.CallInstruction); ok && (x.Block() != b || instrIndex(x) > instrIndex(in)) {
-					if _, isGo := x.(*ssa.Go); !isGo && reachesSender(ci) {
-						bad = "a heap-manager request (" + w.instrPos(x) + ") is reachable after the end request: send on closed channel"
-					}
+			}
+		}
+	}
+	var ufns []*ssa.Function
+	for f := range unit {
+		ufns = append(ufns, f)
+	}
+	sort.Slice(ufns, func(i, j int) bool { return ufns[i].Pos() < ufns[j].Pos() })
+	for _, f := range ufns {
+		for _, b := range f.Blocks {
+			for _, in := range b.Instrs {
+				c, ok := in.(*ssa.Call)
+				if !ok || c.Call.StaticCallee() != endFn {
+					continue
 				}
-			})
-			r.Check(bad == "", rule+"e", "after end request in container loop", w.instrPos(in), "no heap request reachable after end", bad)
+				nEnd++
+				after(f, in, 0)
+			}
 		}
 	}
 	if nEnd == 0 {
 		r.Undecided(rule+"e", "end request in container loop", w.pos(cont.Pos()), "the container loop never sends the end request")
 	}
-	// only the container loop function (and functions it calls) may call the end constructor
+	// only the container loop function (and its private helpers) may call the end constructor
 	for _, site := range w.callers[endFn] {
 		if site.Parent().Synthetic != "" {
 			continue
 		}
-		r.Check(site.Parent() == cont, rule+"e", "caller of end request: "+fnShort(site.Parent()), w.instrPos(site), "called from the container loop", "the end request is sent from outside the container loop")
+		r.Check(unit[site.Parent()], rule+"e", "caller of end request: "+fnShort(site.Parent()), w.instrPos(site), "called from the container loop", "the end request is sent from outside the container loop")
 	}
 }
 
